@@ -7,6 +7,7 @@ type rejected before the class table is indexed.
 import ast
 
 from .. import callgraph as CG
+from .. import spec
 from ..codec import CodecModel, unpack_call
 from ..loader import AnalysisError
 from ..sym import (C, NONE, Interp, affine, contains, is_const, iter_events,
@@ -43,7 +44,10 @@ META = {
                     'for-loops over finite sequences/generators terminate '
                     'when the generator\'s own loops are proved'],
     'decided': ['D1 loop progress', 'D2 recursion measure',
-                'D3 bounded reads', 'D4 unknown message type rejected'],
+                'D3 bounded reads', 'D4 unknown message type rejected',
+                'D5 the body signature is bounded (<= 255) before it is '
+                'split and decoded - the premise under which the quadratic '
+                'splitter is constant work'],
     'undecided': ['the constant of "work proportional to length" (signature '
                   'splitting is quadratic in a <=255-byte signature)',
                   'that the exception costs the peer only its own '
@@ -473,6 +477,47 @@ def bounded_reads(ctx, rule, cm):
         # cannot bound are reported under D1)
 
 
+def signature_bounded(ctx, rule):
+    """genCompleteTypes copies the rest of the signature once per array
+    code: its work is quadratic in the signature length.  That is constant
+    work only if the length is bounded, which the wire type SIGNATURE
+    guarantees (one length byte) - but a header field is a VARIANT and a peer
+    may put a STRING of any length there.  parseMessage must therefore bound
+    the length itself before the signature reaches the splitter."""
+    prog = ctx.prog
+    fi = prog.func('message.parseMessage')
+    n = 0
+    for p in Interp(prog, exc_edges=False).run(fi):
+        if p.outcome != 'return':
+            continue
+        for c in p.calls(deep=False):
+            if c[1] != 'marshal.unmarshal' or not c[3] or \
+                    c[3][0] == C(spec.HEADER_SIGNATURE):
+                continue
+            sig = c[3][0]
+            lens = ('call', 'len', ('builtin', 'len'), (sig,), (), None)
+            bounded = False
+            for t, pol in p.cond:
+                if kind(t) == 'cmp' and t[2] == lens and is_const(t[3]) \
+                        and isinstance(t[3][1], int):
+                    k = t[3][1]
+                    if (t[1] == '>' and not pol and k <= 255) or \
+                       (t[1] == '>=' and not pol and k <= 256) or \
+                       (t[1] == '<=' and pol and k <= 255) or \
+                       (t[1] == '<' and pol and k <= 256):
+                        bounded = True
+            n += 1
+            ctx.ob(rule, fi.qualname, 'signature-length-bounded', bounded,
+                   'the body is decoded under a signature taken from a '
+                   'header field whose length was not bounded by 255 on '
+                   'this path: the field is a variant, a peer can send a '
+                   'STRING of megabytes there, and splitting it into '
+                   'complete types is quadratic (a 1.5 MB message already '
+                   'costs seconds, 128 MiB hours)')
+    if n == 0:
+        raise AnalysisError('parseMessage: the body decode was not found')
+
+
 def unknown_type_guard(ctx, rule):
     prog = ctx.prog
     fi = prog.func('message.parseMessage')
@@ -547,6 +592,8 @@ def run(ctx):
     recursion_measure(ctx, 'C05.D2', cm, bounds)
     bounded_reads(ctx, 'C05.D3', cm)
     unknown_type_guard(ctx, 'C05.D4')
+    signature_bounded(ctx, 'C05.D5')
+    ctx.floor('C05.D5', 1)
     ctx.floor('C05.D1', 5)
     ctx.floor('C05.D2', 4)
     ctx.floor('C05.D3', 17)
